@@ -8,4 +8,6 @@ CONSTANTS
   Lifecycle = "separate"
   SecondCheck = FALSE
   Filter = TRUE
+  MaxFail = 0
+  GiveBack = FALSE
 INVARIANTS NoStaleInvoke
